@@ -291,7 +291,10 @@ def run_histories(ctx, histories, label, stats, known):
                 cls = "K06a"
             elif in_k06b_class(h, pi) and real_norm == mres:
                 cls = "K06b"
-            elif k06c and real_norm == mres:
+            elif k06c and (real_norm == mres or mres != sres):
+                # The model deviates from S here too.  It cannot always predict WHICH value shows: the real recycler keeps
+                # the reclaimed slots in a hash set, so the slot a later definition takes is not determined; once a failed
+                # build has taken a reclaimed slot the damage spreads differently in M and in the engine.
                 cls = "K06c"
             if cls and cls in known:
                 ctx.known_finding("id=%s %s" % (cls, known[cls]))
